@@ -14,6 +14,9 @@ Case = list of ops
     ['gate', u, send_outcome, resp_outcome, m]   release whatever network call u's worker is parked in
                                              (resp_outcome 'silence' = let 10 s pass instead)
     ['adv', seconds]                      virtual time passes
+    ['tm', unfinished, finished, m]       one cycle of the REAL `TransferManager.manage_user_tracking`
+                                          (transfer/manager.py:497-515) over transfers of the listed users; its
+                                          track/untrack(TRANSFER) calls go through the harness back-to-back
     ['close']                             ConnectionStateChangedEvent(ServerConnection, CLOSED)
 Every op first moves the virtual clock by one tick (1/1024 s): two timers of one user never fall due at the
 same instant, so the order in which asyncio fires them is not left to heap tie-breaking.
@@ -164,6 +167,11 @@ class _Run:
             self.lines.append(f'adv {op[1]}')
             await simloop.advance(op[1])
             m = '.'
+        elif kind == 'tm':
+            await self.transfer_cycle(op[1], op[2])
+            if op[3] == '.':
+                await self.do(['adv', 0])
+            return
         elif kind == 'close':
             from aioslsk.events import ConnectionStateChangedEvent
             from aioslsk.network.connection import ConnectionState, ServerConnection
@@ -187,6 +195,50 @@ class _Run:
             raise ValueError(f'unknown op {op!r}')
         self.obs.append(pre + self.observe())
         self.checkpoint(m == '.')
+
+    async def transfer_cycle(self, unfinished: list, finished: list):
+        """Run the real TransferManager.manage_user_tracking on a stand-in object holding real Transfer
+        objects; the calls it makes reach the real UserManager through `do` (one tick each, no yield)."""
+        from aioslsk.transfer.manager import TransferManager
+        from aioslsk.transfer.model import Transfer, TransferDirection
+        from aioslsk.transfer.state import CompleteState
+        from aioslsk.user.model import TrackingFlag
+        run = self
+        made: list = []
+
+        class _UM:
+            async def track_user(self, username, flag=TrackingFlag.REQUESTED):
+                made.append(('track', username, flag.value))
+                if username in NAMES:
+                    await run.do(['track', NAMES.index(username), flag.value, '+'])
+
+            async def untrack_user(self, username, flag=TrackingFlag.REQUESTED):
+                made.append(('untrack', username, flag.value))
+                if username in NAMES:
+                    await run.do(['untrack', NAMES.index(username), flag.value, '+'])
+
+        class _TM:
+            get_unfinished_transfers = TransferManager.get_unfinished_transfers
+            get_finished_transfers = TransferManager.get_finished_transfers
+            manage_user_tracking = TransferManager.manage_user_tracking
+
+        tm = _TM()
+        tm._user_manager = _UM()
+        tm._transfers = []
+        for i, u in enumerate(unfinished):
+            tm._transfers.append(Transfer(NAMES[u], f'a\\{i}.mp3', TransferDirection.DOWNLOAD))
+        for i, u in enumerate(finished):
+            t = Transfer(NAMES[u], f'b\\{i}.mp3', TransferDirection.UPLOAD)
+            t.state = CompleteState(t)
+            tm._transfers.append(t)
+        await tm.manage_user_tracking()
+        tflag = TrackingFlag.TRANSFER.value
+        want = sorted([('track', NAMES[u], tflag) for u in set(unfinished)]
+                      + [('untrack', NAMES[u], tflag) for u in set(finished) - set(unfinished)])
+        if sorted(made) != want:
+            self.problems.append(('C15-transfer-reason-wrong',
+                                  f'transfer manager cycle with unfinished={unfinished} finished={finished} made the '
+                                  f'calls {sorted(made)}, expected {want}'))
 
     async def drain(self):
         await self.do(['adv', 0])          # let whatever the last op left runnable run first
@@ -522,10 +574,19 @@ def _tmpl_retry(rng):
 def _tmpl_transfer_cycles(rng):
     """the transfer manager's per-cycle calls: track(TRANSFER) for every unfinished user, back to back"""
     ops = []
-    for _cycle in range(rng.randint(2, 3)):
-        ops += [['track', 0, 2, '+'], ['track', 1, 2, rng.choice(['+', '.'])]]
-        ops.append(_gate(rng, rng.randrange(2)))
-    ops += [['untrack', rng.randrange(2), 2, _mod(rng)], _gate(rng, 0), _gate(rng, 1)]
+    if rng.random() < 0.3:
+        ops.append(['track', rng.randrange(2), rng.choice([1, 4, 5]), _mod(rng)])
+    unfinished = rng.choice([[0], [1], [0, 1], [0, 0, 1]])
+    finished: list = []
+    for _cycle in range(rng.randint(2, 4)):
+        ops.append(['tm', list(unfinished), list(finished), rng.choice(['+', '.', '.'])])
+        ops.append(_gate(rng, -1))
+        if unfinished and rng.random() < 0.5:      # a transfer completes
+            u = unfinished.pop(rng.randrange(len(unfinished)))
+            finished.append(u)
+        elif rng.random() < 0.2:                   # a new transfer for a user whose transfers were finished
+            unfinished.append(rng.randrange(2))
+    ops += [['tm', list(unfinished), list(finished), '.'], _gate(rng, -1), _gate(rng, -1)]
     return ops
 
 
@@ -544,8 +605,8 @@ def _gen_case(rng: random.Random) -> dict:
     ncall = 0
     cut = len(ops)
     for i, op in enumerate(ops):
-        if op[0] in ('track', 'untrack'):
-            ncall += 1
+        if op[0] in ('track', 'untrack', 'tm'):
+            ncall += 1 if op[0] != 'tm' else len(set(op[1]) | set(op[2]))
             if ncall > 8:
                 cut = i
                 break
@@ -622,7 +683,7 @@ class C15(Property):
 
     def _cases(self, seed, tier, widen):
         rng = random.Random(f'C15-{seed}')
-        n = (6000 if tier == "quick" else 120000) * widen
+        n = (6000 if tier == 'quick' else 360000) * widen
         cases = [WITNESS_LOST, WITNESS_SWALLOW]
         cdir = common.CORPUS / 'C15'
         if cdir.is_dir():
